@@ -88,6 +88,7 @@ type caseResult struct {
 	Out      []candOutcome  `json:"out"`
 	Stats    map[string]int `json:"stats"`
 	Sample   string         `json:"sample,omitempty"`
+	Detail   []string       `json:"detail,omitempty"` // C06_DETAIL=1: one line per candidate (debugging)
 	ReplayMS int64          `json:"replay_ms"`
 }
 
@@ -227,6 +228,18 @@ func runCase(fams map[string]*family, cs caseSpec) (res caseResult) {
 		}
 		res.Stats["tampers"] += out.Tampers
 		res.Out = append(res.Out, co)
+		if os.Getenv("C06_DETAIL") != "" {
+			line := fmt.Sprintf("%-90s", opsString(ops))
+			for _, v := range out.Verdicts {
+				if v.CheckTx == "" {
+					line += " | checktx OK"
+				} else {
+					line += " | checktx: " + v.CheckTx
+				}
+			}
+			line += fmt.Sprintf(" | committed=%v failed=%d %s %s viol=%d", out.Committed, out.Failed, out.Disabled, out.BlockErr, len(out.Viol))
+			res.Detail = append(res.Detail, line)
+		}
 	}
 	return res
 }
@@ -350,6 +363,9 @@ func explore(r *vk.Run, f *family, rootKey string) searchResult {
 			}
 			for k, v := range cr.Stats {
 				res.Stats[k] += v
+			}
+			for _, l := range cr.Detail {
+				fmt.Println("  ", l)
 			}
 			if cr.Sample != "" && i%97 == 0 {
 				r.Sample(map[string]interface{}{"search": f.Name, "parent": names(cases[i].Hist), "sample": cr.Sample})
